@@ -7,6 +7,8 @@ NAME=$(basename $(dirname $DIFF))-$(basename $DIFF .diff)-$$
 WT=/tmp/ev-$NAME
 git -C /repo worktree add -q --detach $WT HEAD || exit 2
 if ! git -C $WT apply $DIFF; then echo "EVAL $DIFF: patch does not apply"; git -C /repo worktree remove --force $WT; exit 2; fi
+# what depends on the specification only (model-checking outcomes, TLC-generated trap cases) is shared with the main build directory
+mkdir -p $WT-build; cp $HERE/.build/mcexec-* $HERE/.build/traps-* $HERE/.build/buildtrap-* $WT-build/ 2>/dev/null
 for p in "$@"; do
   OUT=$(cd $HERE && ZOG_REPO=$WT VERIF_BUILD=$WT-build VERIF_EVID=$WT-evid timeout 1800 bin/check $p ${TIER:-quick} 2>&1); RC=$?
   echo "EVAL $(basename $(dirname $DIFF))/$(basename $DIFF) $p rc=$RC $(echo "$OUT" | grep -c VIOLATION) violations; first: $(echo "$OUT" | grep -m1 -A1 VIOLATION | tr '\n' ' ' | cut -c1-420) $(echo "$OUT" | grep -m1 INCONCLUSIVE | cut -c1-300)"
